@@ -317,3 +317,33 @@ RULE_ADDENDA = {
 }
 for _id, _txt in RULE_ADDENDA.items():
     CHECKS[_id]["rule"] += ". Extensions after the sensitivity rounds: " + _txt
+
+# what every end-to-end history may contain since the third sensitivity round
+_E2E3 = ("event headers carry the flag bits a master sets (thread-specific / suppress-use / no-filter / MTS-isolate / ignorable / in-use); v2 rows events carry typed extra row "
+         "info (partition id, source partition id for UPDATE, NDB info); statement texts end in a comment with non-ASCII, non-UTF-8 and control bytes; table maps may carry optional "
+         "metadata (signedness, charsets, column names); DDL may stand inside a transaction")
+ROUND3_ADDENDA = {
+    "C01": _E2E3 + "; scale shapes, one history in ~50 each: a statement split into up to 1100 rows events, a history of > 1500 events, 130-2100 tables with two-table statements, "
+           "rows events with > 1000 rows; one case in twenty runs 2-4 streamers in parallel",
+    "C02": _E2E3 + "; long transactions and long histories as in C01",
+    "C03": _E2E3 + "; scale shapes as in C01 (eight drawn resume points on long histories)",
+    "C04": _E2E3 + "; rows events with > 1000 rows; cause 'cancel while the parser is busy'; handler errors include io.EOF, context.Canceled and wrapped errors",
+    "C05": "stop cause 'cancel while the replica waits for the answer to its first statement' (master answers 0-3 ms later); histories with STOP events and rotations; one long-lived, "
+           "mostly idle attempt (2.6 s) in one normal and one race-detector shard; 2-4 streamers in parallel (more often in the race shards)",
+    "C06": "handler errors include io.EOF, context.Canceled and wrapped errors; histories with STOP events and rotations",
+    "C07": "attempts may run under a context with a (far) deadline: the request must still be the blocking one; a dump requested after the master rejected the checksum statement is a violation",
+    "C08": "long transactions (a statement split into up to 1100 rows events) are retained and re-verified",
+    "C09": "typed extra row info; part: a rows event with > 1000 rows whose conversion meets a cancellation at a parser log call - whatever is delivered must be complete",
+    "C10": "re-binding of a table id to a table whose name differs only in letter case",
+    "C13": "typed extra row info in the end-to-end part",
+    "C14": "wide containers: 90-3000 members taken from a few drawn scalars (opaque temporals and decimals render much longer than they are stored), below 0-2 enclosing containers",
+    "C15": "re-binding to a name that differs only in letter case; one end-to-end history in sixty has 130-2100 tables with two-table statements",
+    "C16": "variable-length status vars reach their real maxima (catalog / time zone 255, invoker 96+255, 16 database names of 192 bytes) one time in six",
+    "C18": "the dense interval window is also placed at 2^24, 2^31, 2^32, 2^53, 2^62 and 2^63-40",
+    "C19": "the generic accessors (domain / server / sequence) of a parsed GTID report the identifier's components",
+    "C20": "synthetic transactions with 33-600 events, 64-300 rows, Query.Database and Query.Charset set, U+FFFD / BOM / C1 / U+2028 in all strings; end-to-end histories with long "
+           "transactions and with a ROWS_QUERY event in front of the table maps (a refusal of the stream is fine; what is delivered must serialise completely); an event that has "
+           "rows must show them whatever its statement text",
+}
+for _id, _txt in ROUND3_ADDENDA.items():
+    CHECKS[_id]["rule"] += ". Third round: " + _txt
